@@ -18,6 +18,7 @@ use std::{cmp, io, thread};
 use std::collections::{HashMap, HashSet};
 use std::fs::{self, canonicalize, create_dir_all, read_link, File, Metadata};
 use std::io::ErrorKind;
+use std::os::unix::ffi::OsStrExt;
 use std::os::unix::fs::{FileTypeExt, MetadataExt};
 use std::path::{Component, Path, PathBuf};
 use std::sync::Arc;
@@ -239,6 +240,17 @@ pub enum Operation {
     Special(PathBuf, PathBuf),
 }
 
+// Whether `path` is spelled `dir/.` (or is `.` itself), trailing
+// slashes aside: the contents of a directory rather than the
+// directory.
+fn spelled_with_dot(path: &Path) -> bool {
+    let mut bytes = path.as_os_str().as_bytes();
+    while let [rest @ .., b'/'] = bytes {
+        bytes = rest;
+    }
+    bytes == b"." || bytes.ends_with(b"/.")
+}
+
 // `path` without `.` components and with `name/..` cancelled, as
 // spelled (no links are resolved).
 fn lexical(path: &Path) -> PathBuf {
@@ -303,9 +315,10 @@ pub fn tree_walker(
 
         // A source ending in `..` (or `.`, or the root) has no name of
         // its own to be created in the destination; its contents go
-        // into the destination itself.
+        // into the destination itself. (`components()` drops a
+        // trailing `.`, so that spelling is looked for separately.)
         let target_base = match sourcedir {
-            Component::Normal(name) if is_dir(dest)? && !config.no_target_directory => dest.join(name),
+            Component::Normal(name) if !spelled_with_dot(&source) && is_dir(dest)? && !config.no_target_directory => dest.join(name),
             _ => dest.to_path_buf(),
         };
         debug!("Target base is {:?}", target_base);
